@@ -306,6 +306,14 @@ def cases_C13(rng, tier):
         for t in sorted(set(TAGS + [0, 1, 2, 3, 4, 5, 16, 17, 18, 21, 22, 23, 24, 32, 33, 34, 35, 36, 61, 63, 96, 97, 98, 256, 55799, 55800, 2**32, 2**64 - 1])):
             out.append(case("dectag", ty, head(6, t) + own, fam="tag-over-own-tag", expect_re=r"err:\w+"))
             out.append(case("dec", ty, head(6, t) + own, fam="tag-over-own-tag", expect_re=r"err:\w+"))
+    for n in [x for x in LATTICE if -2**63 <= x < 2**63]:
+        d = enc(I(n))
+        out.append(case("enc", "Label", d, fam="enc", key=("Label", d), expect="ok " + enc(I(n)).hex()))
+        out.append(case("encval", "Label", d, fam="api-encode", key=("Label", d), impl_only=True))
+    for t in TEXT_LABELS:
+        d = enc(T(t))
+        out.append(case("enc", "Label", d, fam="enc", key=("Label", d), expect="ok " + d.hex()))
+        out.append(case("encval", "Label", d, fam="api-encode", key=("Label", d), impl_only=True))
     return out
 
 def post_C13(cases, impl):
@@ -1364,8 +1372,13 @@ def cases_C06(rng, tier):
             if not detached: ops.append(A(T("payload"), B(pl)))
             sps = []
             for i in range(nsig):
-                sph = hdr_arg(rng); spb = b"" if pyspec.header_empty(sph) else enc(pyspec.header_map(sph))
-                sg = d_signature(d_protected(None, sph), hdr_arg(rng), b"")
+                if rng.random() < 0.35:
+                    # a signer taken from a received message: its protected header carries the wire bytes, which are what
+                    # is signed, what is emitted and what is verified
+                    sp = wire_protected(rng); spb = sp[1][0][1]
+                else:
+                    sph = hdr_arg(rng); spb = b"" if pyspec.header_empty(sph) else enc(pyspec.header_map(sph)); sp = d_protected(None, sph)
+                sg = d_signature(sp, hdr_arg(rng), b"")
                 ki = rbytes(rng, 2); sps.append((spb, ki))
                 if detached: ops.append(A(T(rng.choice(["add_detached_signature", "try_add_detached_signature"])), sg, B(pl), B(aad), A(I(0), B(ki))))
                 else: ops.append(A(T(rng.choice(["add_created_signature", "try_add_created_signature"])), sg, B(aad), A(I(0), B(ki))))
@@ -1664,6 +1677,19 @@ def cases_C01(rng, tier):
         out.append(case("dec", "Header", head(4, 23) * 1 + bytes(n), fam="large-input", impl_only=True, expect_re=r"err:\w+"))
     for ty, b in combos.wide_inputs():
         out.append(case('timedec', ty, b, fam='wide:' + ty, impl_only=True, expect='ok accepted'))
+    # N-fold wrappers that no CBOR recursion limit sees (each level is a flat item parsed afresh): bstr in bstr in ...
+    # in every protected-header position; plus bstr-wrapped arrays / maps alternating
+    for n in (1, 2, 16, 17, 300, 3000, 20000):
+        inner = b"\xa0"
+        for _ in range(n): inner = head(2, len(inner)) + inner
+        alt = b"\xa0"
+        for i in range(min(n, 3000)): alt = (head(2, len(alt)) + alt) if i % 2 else (b"\x81" + alt)
+        for w in (inner, alt):
+            out.append(case("dec", "CoseSign1", b"\x84" + w + b"\xa0\xf6\x40", fam="wrapped-protected"))
+            out.append(case("dectag", "CoseEncrypt0", b"\xd0\x83" + w + b"\xa0\xf6", fam="wrapped-protected"))
+            out.append(case("dec", "CoseMac", b"\x85\x40\xa0\xf6\x40\x81\x83" + w + b"\xa0\xf6", fam="wrapped-protected"))
+            out.append(case("dec", "CoseKdfContext", b"\x84\x01\x83\xf6\xf6\xf6\x83\xf6\xf6\xf6\x82\x00" + w, fam="wrapped-protected"))
+            out.append(case("dec", "Header", b"\xa1\x07\x83" + w + b"\xa0\x40", fam="wrapped-protected"))
     return out
 # ================================================================= registry
 PROPS = {}
